@@ -183,6 +183,34 @@ impl Expr {
         result
     }
 
+    /// Whether the value depends on the entry although no column is named:
+    /// some functions look at the file itself (`contains('x')`, `xattr('user.k')`)
+    pub fn reads_entry(&self) -> bool {
+        #[cfg(unix)]
+        if matches!(self.function, Some(Function::HasXattr) | Some(Function::Xattr)) {
+            return true;
+        }
+
+        #[cfg(target_os = "linux")]
+        if matches!(
+            self.function,
+            Some(Function::HasCapabilities) | Some(Function::HasCapability)
+        ) {
+            return true;
+        }
+
+        if matches!(self.function, Some(Function::Contains)) {
+            return true;
+        }
+
+        self.left.as_ref().is_some_and(|expr| expr.reads_entry())
+            || self.right.as_ref().is_some_and(|expr| expr.reads_entry())
+            || self
+                .args
+                .as_ref()
+                .is_some_and(|args| args.iter().any(|expr| expr.reads_entry()))
+    }
+
     pub fn contains_numeric(&self) -> bool {
         Self::contains_numeric_field(self)
     }
